@@ -1014,14 +1014,14 @@ func (x *Exec) lookupLocal(fr *Frame, name string, point *ssa.BasicBlock, st *St
 					}
 				}
 			case *ssa.Alloc:
-				if i.Comment == name && b != point {
+				if i.Comment == name && (b != point || idx < fr.atIdx) {
 					c := &cand{v: i, addr: true, block: b, idx: idx}
 					if better(c) {
 						best = c
 					}
 				}
 			case *ssa.DebugRef:
-				if b == point {
+				if b == point && idx >= fr.atIdx {
 					continue
 				}
 				if o := i.Object(); o != nil && o.Name() == name {
@@ -1078,9 +1078,11 @@ func (x *Exec) frameEnv(fr *Frame, st *State, point *ssa.BasicBlock, results []V
 // to the actual arguments (prefixed with "arg."), caller locals are visible.
 func (x *Exec) evalClauseCall(fr *Frame, c *Clause, st *State, callee *ssa.Function, args []V) string {
 	env := x.frameEnv(fr, st, fr.curBlock, nil)
-	for i, p := range callee.Params {
-		if i < len(args) {
-			env.names["arg_"+p.Name()] = args[i]
+	if callee != nil {
+		for i, p := range callee.Params {
+			if i < len(args) {
+				env.names["arg_"+p.Name()] = args[i]
+			}
 		}
 	}
 	for i, a := range args {
